@@ -35,7 +35,7 @@ type Scenario struct {
 	H     []int  `json:"h"`
 }
 
-var strKeys = []string{"a", "aa", "ab", "b", "ba", "c", "é", "z", "A", "Z", "0", "zz", "\xff", "日"}
+var strKeys = []string{"a", "100%", "aa", "%v", "ab", "b", "a%sb", "ba", "c", "é", "z", "A", "%d%%", "Z", "0", "zz", "\xff", "日"}
 
 func genOp(t *rapid.T) Op {
 	k := rapid.SampledFrom([]string{"put", "put", "put", "get", "remove", "remove"}).Draw(t, "k")
